@@ -19,6 +19,9 @@ enum {
     WO_INT_1, WO_INT_M128, WO_INT_128, WO_INT_M32769, WO_INT_2P31, WO_INT_MIN,
     WO_DOUBLE, WO_STR_0, WO_STR_1, WO_STR_127, WO_STR_128, WO_STR_300, WO_STRZ_AB, WO_NAME_A,
     WO_BYT_0, WO_BYT_1, WO_BYT_128, WO_RAW_0, WO_RAW_2, WO_P2W,
+    /* write_raw whose SOURCE lies inside the writer's own buffer and overlaps the destination (bytes re-emitted from the output so far /
+     * a payload staged just ahead of the cursor): the stored bytes must be the source as it was before the call */
+    WO_RAW_BACK, WO_RAW_AHEAD,
     /* payloads that need the 4-byte length prefix; only used by the "big" pass (capacities around every piece boundary) */
     WO_STR_40000, WO_BYT_32768,
     /* parametric operations of the "value" pass: the argument comes from wexp_vint / wexp_vdbl / wexp_vlen */
@@ -33,12 +36,14 @@ static const char *const wo_name[WO_NOPS] = {
     "object_begin", "object_end", "array_begin", "array_end", "true", "false", "int(1)", "int(-128)", "int(128)", "int(-32769)", "int(2^31)",
     "int(INT64_MIN)", "double(-1.5)", "string_with_len(0)", "string_with_len(1)", "string_with_len(127)", "string_with_len(128)",
     "string_with_len(300)", "write_string(\"ab\")", "write_name(\"a\")", "bytes(0)", "bytes(1)", "bytes(128)", "write_raw(0)", "write_raw(2)",
-    "parser_to_writer([1])", "string_with_len(40000)", "bytes(32768)", "integer(V)", "double(V)", "string_with_len(L)", "bytes(L)", "write_string(L chars)", "write_raw(L)",
+    "parser_to_writer([1])", "write_raw(4 bytes starting 2 below the cursor)", "write_raw(4 bytes staged 1 above the cursor)", "string_with_len(40000)", "bytes(32768)", "integer(V)", "double(V)", "string_with_len(L)", "bytes(L)", "write_string(L chars)", "write_raw(L)",
     "string_with_len(INT32_MAX+1)", "bytes(SIZE_MAX)", "write_string(NULL)", "write_raw(NULL)", "write_raw(len=SIZE_MAX)", "write_raw(len=SIZE_MAX-1: counter+len wraps)"
 };
 
 static uint8_t wexp_payload[70100];       /* patterned source bytes */
 static char wexp_zpayload[70100];         /* NUL-free text for write_string */
+static uint8_t wexp_alias_bytes[4];       /* what the aliasing operation must emit */
+static uint8_t *wexp_alias_dst; static size_t wexp_alias_cap, wexp_alias_used; static bool wexp_alias_ok;   /* set by wexp_run before the real call */
 static int64_t wexp_vint; static uint64_t wexp_vdbl; static size_t wexp_vlen;     /* arguments of the parametric operations */
 static uint8_t wexp_p2w_doc[] = { 0x42, 0x42, 0x10, 0x01, 0x43, 0x43 };     /* [[1]] : the inner [1] is what parser_to_writer copies */
 
@@ -88,6 +93,10 @@ static int wexp_ref_op(int op, vf_doc *ref, wpiece *pc)
         if (wexp_vlen) { a = ref->len; vf_put(ref, op == WO_STRZ_L ? (const uint8_t *) wexp_zpayload : wexp_payload, wexp_vlen); ONE(); }
         break;
     case WO_RAW_L: vf_put(ref, wexp_payload, wexp_vlen); ONE(); break;
+    case WO_RAW_BACK:
+        for (int i = 0; i < 4; i++) wexp_alias_bytes[i] = (i < 2 && a >= 2) ? ref->bytes[a - 2 + (size_t) i] : 0xA5;
+        vf_put(ref, wexp_alias_bytes, 4); ONE(); break;
+    case WO_RAW_AHEAD: memcpy(wexp_alias_bytes, "WXYZ", 4); vf_put(ref, wexp_alias_bytes, 4); ONE(); break;
     case WO_RAW_0: ONE(); break;    /* a zero-length piece */
     case WO_RAW_2: vf_put(ref, "\x44\x45", 2); ONE(); break;
     case WO_P2W: vf_put(ref, wexp_p2w_doc + 1, 4); ONE(); break;
@@ -132,6 +141,24 @@ static bool wexp_real_op(int op, binson_writer *w)
     case WO_BYT_L: return binson_write_bytes(w, wexp_payload, wexp_vlen);
     case WO_STRZ_L: { wexp_zpayload[wexp_vlen] = 0; bool r = binson_write_string(w, wexp_zpayload); wexp_zpayload[wexp_vlen] = 'z'; return r; }
     case WO_RAW_L: return binson_write_raw(w, wexp_payload, wexp_vlen);
+    case WO_RAW_BACK: {
+        /* aliasing is possible when nothing failed so far, two bytes precede the cursor and the four source bytes lie inside the destination */
+        uint8_t priv[4];
+        memcpy(priv, wexp_alias_bytes, 4);
+        bool alias = wexp_alias_ok && wexp_alias_used >= 2 && wexp_alias_used + 2 <= wexp_alias_cap;
+        return binson_write_raw(w, alias ? wexp_alias_dst + wexp_alias_used - 2 : priv, 4);
+    }
+    case WO_RAW_AHEAD: {
+        uint8_t priv[4];
+        memcpy(priv, wexp_alias_bytes, 4);
+        bool alias = wexp_alias_ok && wexp_alias_used + 5 <= wexp_alias_cap;
+        if (!alias) return binson_write_raw(w, priv, 4);
+        uint8_t *stage = wexp_alias_dst + wexp_alias_used + 1;
+        memcpy(stage, priv, 4);                         /* the caller stages its payload in its own buffer, one byte ahead of the cursor */
+        bool r = binson_write_raw(w, stage, 4);
+        if (stage[3] == priv[3]) stage[3] = 0xA5;       /* the one staged byte the write does not cover: back to the fill pattern (if it changed, the content oracle reports it) */
+        return r;
+    }
     case WO_RAW_0: return binson_write_raw(w, wexp_payload, 0);
     case WO_RAW_2: return binson_write_raw(w, (const uint8_t *) "\x44\x45", 2);
     case WO_P2W: {
@@ -224,7 +251,9 @@ static bool wexp_run(const wexp_cfg *cf, const int *seq, int n, size_t cap, wexp
         memcpy(shadow, dptr, cap);
         binson_err e0 = w.error_flags;
         vf_progress++;
+        wexp_alias_dst = dptr; wexp_alias_cap = cap; wexp_alias_used = ref.len - (noenc ? 0 : (np ? ref.len - pc[0].off : 0)); wexp_alias_ok = !failed && counter_defined;
         bool r = wexp_real_op(op, &w);
+        wexp_alias_ok = false;
         if (counting) {
             vf_count(CT_W_CALLS, 1);
             if (!r) vf_count(CT_W_FALSE_CALLS, 1);
